@@ -50,18 +50,17 @@ def u1_lemmas(tier, ndjson=(0, 1), havoc=(0, 1)):
     plan = []
     for nd in ndjson:
         for hv in havoc:
-            ks = (2, 3) if tier == "quick" else (2, 3, 4)
-            if tier == "quick" and hv == 1:
-                ks = (2, 3) if nd == 0 else (2,)
+            if tier == "quick":
+                ks = (2, 3) if (hv == 0 or nd == 0) else (2,)
+            else:
+                ks = (2, 3, 4) if hv == 0 else (2, 3)
             for K in ks:
                 plan.append((K, nd, hv))
-    if tier != "quick":
-        plan += [(5, 0, 0), (5, 1, 0), (6, 0, 0)]
     ls = []
     for K, nd, hv in plan:
         ls.append(Lemma("U1.parseMessage.K%d.%s.%s" % (K, "ndjson" if nd else "json", "havoc" if hv else "fresh"),
                         "verifHarness_U1_ParseMessage", FU1,
-                        splits=[{"K": K - 2, "ndjson": nd, "havoc": hv, "copy": cp, "wide": 0} for cp in ((1,) if tier == "quick" else (1, 0))],
+                        splits=[{"K": K - 2, "ndjson": nd, "havoc": hv, "copy": cp, "wide": 0} for cp in ((1,) if (tier == "quick" or K >= 4) else (1, 0))],
                         split_depth="auto", intr=Stage2SummIntrinsics, scale=SCALE_U1,
                         desc="the whole synchronous parseMessage path on every message with %d structural tokens at gaps from {1,5,61} "
                              "bytes (so messages span up to %d 64-byte blocks and, with the index limit scaled to 3, several index "
